@@ -1,6 +1,6 @@
 From Coq Require Extraction.
 From Coq Require Import ExtrOcamlBasic.
-From AIT Require Import Base.Vio C14.Model C14.Spec C14.ModelAlg C14.ModelDDN.
+From AIT Require Import Base.Vio C14.Model C14.Spec C14.ModelAlg C14.ModelDDN C14.Model2D.
 Extraction "model.ml" vio_kit factorSpace toIndex toFactors factorSpacePartial toIndexPartial toFactorsPartial toIndexPartialPF
   checkTag removeFactor merge_keys_matches merge_keys merge_pf merge_vals match_pf match_f_pf match_keys match_pairs
   toIndexPartialKPF toIndexPF toIndexPartialAndSkip
@@ -9,4 +9,5 @@ Extraction "model.ml" vio_kit factorSpace toIndex toFactors factorSpacePartial t
   bf_dot bf_plus bf_minus bf_binop_alloc plusEqualSubset minusEqualSubset plusEqual minusEqual minusEqual_orig
   plusEqualFV minusEqualFV getValue getValueW scaleW scale
   graph_new graph_push getIds getId getIdP getIdsRev getSize getPartialSize getPartialSizeA
-  getTransitionProbability getTransitionProbabilityP backProject.
+  getTransitionProbability getTransitionProbabilityP backProject
+  toFactorsOut getValue2D getValueW2D scaleW2D scale2D plusEqualSubset2D plusEqual2D plusEqualFM.
